@@ -24,5 +24,9 @@ def run(ctx, crate):
     # zombie text are exactly the rows the erase count released
     from .c03 import rule_row_transfer_pairing
     rule_row_transfer_pairing(ctx, crate)
+    # the rows a reaped bar releases are the wrapped rows of its *stored* lines: they are the rows on the screen only if the
+    # last update of a finished bar was painted, i.e. never swallowed by the rate limiter
+    D.rule_finished_draws_forced(ctx, crate)
+    D.rule_counted_newline_row_followed(ctx, crate)
     D.rule_text_not_counted(ctx, crate)
     D.rule_draw_order(ctx, crate)
